@@ -23,7 +23,11 @@ def term_of_closure(body):
     def op(o):
         if o['o'] in ('copy', 'move'):
             p = o['place']
-            base = env.get(p['local'], ('local', body.local_names.get(p['local'], p['local'])))
+            base = env.get(p['local'])
+            if base is None:
+                # parameters are named by their type, not by their source name: the u32 one is the accumulator, the byte the element
+                ts = body.local_ty(p['local']).get('s') if 1 <= p['local'] <= body.arg_count else None
+                base = ('local', {'u32': 'acc', '&u8': 'octet', 'u8': 'octet'}.get(ts, body.local_names.get(p['local'], p['local'])))
             for e in p['proj']:
                 if e['p'] == 'deref':
                     base = ('deref', base)
@@ -191,7 +195,7 @@ def run(ck):
     a = ck.analyse(key, {'kslots': 2, 'no_inline': {'crc::crc32'}})
     evs = [r for r in a.events('call') if r.data[1] == 'crc::crc32']
     ck.rule('C12.R4 crc32 calls in DefaultCrc::calculate_crc32', len(evs), 4)
-    names = {a.body.local_names.get(i): a.args[i - 1] for i in range(1, a.body.arg_count + 1)}
+    names = {r: a.arg(r) for r in ('pdu', 'protocol_type', 'total_length', 'label')}
     want_src = [('be', names['total_length'][1], 2), ('be', names['protocol_type'][1], 2), ('slice', names['label']), ('slice', names['pdu'])]
     prev = None
     ck.obligations += 6
@@ -279,7 +283,7 @@ def crc_call_sites(ck, P, writers=('encap', 'encap_ext'), floor=8):
         w_ = analyse_writer(ck, ENC + wname, extra=c09.ENCCFG)
         env = writer_env(ck, w_, wname)
         for r in w_.events('call'):
-            if r.data[2] != 'crc::CrcCalculator::calculate_crc32' or r.site[0] != ENC + wname:
+            if r.data[2] != 'crc::CrcCalculator::calculate_crc32':
                 continue
             n5 += 1
             args, W = r.data[3], r.data[5]
